@@ -438,6 +438,31 @@ where
         let footer = format!("{{\"kid\":\"{}\"}}", "k".repeat(if i % 2 == 0 { 3 } else { sl.min(600) }));
         seal_json::<B, P>(rec, st, &km.seal, &km.unseal, &v, footer.as_bytes());
     }
+    // paseto-json's own claims type and Json<T> footers: every field independently present / absent, nbf and iat apart, strings that
+    // need escapes, footers with brackets inside strings and real nesting
+    rec.emit(json!({"ev":"Reset","scenario":format!("rt-registered-{}-{}", B::NAME, purpose)}));
+    learn(rec, purpose, km);
+    {
+        let t = |s: i64, n: i32| jiff::Timestamp::new(s, n).ok();
+        let strs = ["", "alice", "a\"b\\c\n", "é😀", "x".repeat(300).leak() as &str];
+        let footers = [json!({"kid": "k4.lid.abc"}), json!({"path": "a[?(@.b[?(@.c[?(@.d[?(@.e[[[[[[[[[[[[[[[[[["}), json!([[[[[[[[[[[[[[[[[[[[1]]]]]]]]]]]]]]]]]]]]),
+                       json!({"re": "[[[[[[[[[[[[[[[[[[[[x", "z": "}}}}"}), json!("just a string"), json!({"a": {"b": {"c": {"d": [1, 2, {"e": null}]}}}})];
+        let n = if slow { 6 } else if cfg.thorough { 128 } else { 24 };
+        for i in 0..n {
+            let mask = if cfg.thorough && !slow { i } else { rng.below(128) };
+            let s = |k: usize| if mask >> k & 1 == 1 { Some(strs[(i + k) % strs.len()].to_string()) } else { None };
+            let claims = paseto_json::RegisteredClaims {
+                iss: s(0),
+                sub: s(1),
+                aud: s(2),
+                jti: s(3),
+                exp: if mask >> 4 & 1 == 1 { t(4_102_444_800 + i as i64, 999_999_999) } else { None },
+                nbf: if mask >> 5 & 1 == 1 { t(1_700_000_000 + i as i64, 1) } else { None },
+                iat: if mask >> 6 & 1 == 1 { t(1_600_000_000 - i as i64, 0) } else { None },
+            };
+            seal_registered::<B, P>(rec, st, &km.seal, &km.unseal, &claims, &footers[i % footers.len()]);
+        }
+    }
     // many signatures per randomized signer so that rare signature values (leading zero bytes) occur
     if purpose == "public" && (B::NAME == "v3lc" || B::NAME == "v3") {
         let n = if cfg.thorough { 20000 } else { 3000 };
@@ -520,6 +545,70 @@ where
             // the released claims, identified by their canonical serde_json bytes
             let c = rec.intern(&serde_json::to_vec(&u.claims.0).unwrap());
             let f = rec.intern(&u.footer.0);
+            rec.emit(json!({"ev":"UnsealRet","ok":true,"claims":c,"footer":f,"errc":""}));
+        }
+    }
+}
+
+/// one honest round trip with paseto-json's RegisteredClaims as the payload type and Json<Value> as the footer type
+fn seal_registered<B: Backend, P: Purpose>(rec: &mut Recorder, st: &mut Stats, seal_key: &[u8], unseal_key: &[u8], claims: &paseto_json::RegisteredClaims, footer: &serde_json::Value)
+where
+    B::V: SealingVersion<P>,
+{
+    let purpose = purpose_name::<P>();
+    let key: Key<B::V, P::SealingKey> = key_from_bytes(seal_key).expect("sealing key parses");
+    let wire_footer = serde_json::to_vec(footer).unwrap();
+    let (kid, cid, fid) = (rec.intern(seal_key), rec.intern(&reg_identity(claims)), rec.intern(&wire_footer));
+    rec.emit(json!({"ev":"SealCall","be":B::NAME,"ver":B::VER,"purpose":purpose,"key":kid,"claims":cid,"footer":fid,"aad":0,"ptype":"registered-claims"}));
+    spy_take();
+    rng::reset(rng::Source::Os, true, None, false);
+    let r = catch_unwind(AssertUnwindSafe(|| UnsealedToken::<B::V, P, SpyReg>::new(SpyReg(claims.clone())).with_footer(SpyJsonFooter(footer.clone())).seal(&key, &[])));
+    rng::passthrough();
+    emit_spy(rec, spy_take());
+    st.seals += 1;
+    let tok = match r {
+        Ok(Ok(t)) => t,
+        Ok(Err(e)) => {
+            rec.emit(json!({"ev":"SealRet","ok":false,"errc":errc(&e),"err":errname(&e),"wire":0,"footer":0,"fresh":[]}));
+            return;
+        }
+        Err(p) => {
+            rec.emit(json!({"ev":"Panic","where":"seal","be":B::NAME,"payload":panic_text(p)}));
+            return;
+        }
+    };
+    let text = tok.to_string();
+    let hdr = header::<B, P>();
+    let Some((payload, tfooter)) = split_token(&text, hdr.len()) else { return };
+    let (wid, tfid) = (rec.intern(&payload), rec.intern(&tfooter));
+    let fresh: Vec<u64> = if purpose == "local" { vec![rec.intern(payload.get(..nonce_len(B::VER)).unwrap_or(&payload))] } else { vec![] };
+    // the length of the encoded claims is whatever the library's own encoder wrote (C14 judges its content)
+    let clen = payload.len().saturating_sub(if purpose == "local" { nonce_len(B::VER) } else { 0 } + tail_len(B::VER, purpose));
+    rec.emit(json!({"ev":"SealRet","ok":true,"wire":wid,"footer":tfid,"fresh":fresh,"len":payload.len(),"clen":clen}));
+    let sid = rec.intern(text.as_bytes());
+    rec.emit(json!({"ev":"ToString","str":sid,"ver":B::VER,"purpose":purpose,"wire":wid,"footer":tfid}));
+    st.presentations += 1;
+    let parsed = catch_unwind(AssertUnwindSafe(|| SealedToken::<B::V, P, SpyReg, SpyJsonFooter>::from_str(&text)));
+    spy_take();
+    let Ok(Ok(t2)) = parsed else {
+        rec.emit(json!({"ev":"ParseRet","be":B::NAME,"str":sid,"ver":B::VER,"purpose":purpose,"ok":false,"wire":0,"footer":0}));
+        return;
+    };
+    let shown = t2.to_string();
+    let (p2, f2) = split_token(&shown, hdr.len()).unwrap_or_default();
+    let (w2, ff2) = (rec.intern(&p2), rec.intern(&f2));
+    rec.emit(json!({"ev":"ParseRet","be":B::NAME,"str":sid,"ver":B::VER,"purpose":purpose,"ok":true,"wire":w2,"footer":ff2,"pwire":wid,"pfooter":tfid}));
+    let ukey: Key<B::V, P> = key_from_bytes(unseal_key).unwrap();
+    let uk = rec.intern(unseal_key);
+    rec.emit(json!({"ev":"UnsealCall","be":B::NAME,"ver":B::VER,"purpose":purpose,"wire":wid,"footer":tfid,"key":uk,"aad":0,"note":{"cls":"honest-registered-claims"}}));
+    let r = catch_unwind(AssertUnwindSafe(|| t2.unseal(&ukey, &[], &AcceptReg)));
+    emit_spy(rec, spy_take());
+    match r {
+        Err(p) => rec.emit(json!({"ev":"Panic","where":"unseal","be":B::NAME,"payload":panic_text(p)})),
+        Ok(Err(e)) => rec.emit(json!({"ev":"UnsealRet","ok":false,"errc":errc(&e),"err":errname(&e),"claims":0,"footer":0})),
+        Ok(Ok(u)) => {
+            let c = rec.intern(&reg_identity(&u.claims.0));
+            let f = rec.intern(&serde_json::to_vec(&u.footer.0).unwrap());
             rec.emit(json!({"ev":"UnsealRet","ok":true,"claims":c,"footer":f,"errc":""}));
         }
     }
